@@ -185,6 +185,8 @@ class VerifyMixin:
         self.cur_root = c.target.replace('s3transfer.', '').replace(':', '.') if not c.target.startswith('s3transfer:') else c.target.replace('s3transfer:', 'legacy.')
         self.cur_root += suffix
         self.cur_props = c.props
+        if getattr(c, 'real_arithmetic', False):
+            self.ieee_checks = False      # A-REAL for this root (floats as reals, stated in the contract's assumptions)
         self.cur_root_target_inline = c.target
         self.cur_inline_callees = c.inline_callees
         n0 = len(self.obligations)
